@@ -71,6 +71,48 @@ def inversion_native(vc):
     vc.ensures("evidence_gradient_is_true_gradient", bool(np.allclose(g, gf, rtol=2e-4, atol=2e-5 * max(1.0, float(np.abs(gf).max())))))
 
 
+@bounded("C17", "large_system_native", native_runs=6)
+def large_system_native(vc):
+    """hundreds of data points and small / large error bars: determinants, products and sums of squares leave the double range
+    long before their logarithms do -- evidence, its gradient and the posterior must stay finite and equal to the closed form"""
+    from inference.gp import GpLinearInverter, SquaredExponential, ConstantMean
+    seed = vc.int("seed", lo=0, hi=10 ** 6)
+    rng = np.random.default_rng(seed)
+    m = vc.choice("n_data", [150, 400])
+    p = vc.choice("n_parameters", [12, 40])
+    log_err = vc.choice("log10_error", [-3.0, -1.7, 0.0, 3.0])
+    pos = np.linspace(0, 1, p)[:, None]
+    A = np.exp(-0.5 * ((np.linspace(0, 1, m)[:, None] - pos[:, 0][None, :]) / 0.08) ** 2) + 0.01 * rng.normal(size=(m, p))
+    y_err = 10 ** (log_err + rng.uniform(-0.2, 0.2, size=m))
+    truth = np.sin(6 * pos[:, 0])
+    y = A @ truth + y_err * rng.normal(size=m)
+    K, M = SquaredExponential(), ConstantMean()
+    inv = GpLinearInverter(y=y, y_err=y_err, model_matrix=A, parameter_spatial_positions=pos,
+                           prior_covariance_function=K, prior_mean_function=M)
+    theta = np.array([0.1, 0.0, np.log(0.15)])          # mean, log-amplitude, log-length
+    labels = list(M.hyperpar_labels) + list(K.hyperpar_labels)
+    vc.inputs["labels"] = labels
+    Kp = K.build_covariance(theta[inv.cov_slice])
+    mp = M.build_mean(theta[inv.mean_slice])
+    J = A @ Kp @ A.T + np.diag(y_err ** 2)
+    sign, logdet = np.linalg.slogdet(J)
+    r = y - A @ mp
+    want = -0.5 * r @ np.linalg.solve(J, r) - 0.5 * logdet
+    with np.errstate(all="ignore"):
+        lml = inv.marginal_likelihood(theta)
+        v2, g = inv.marginal_likelihood_gradient(theta)
+        mean, cov = inv.calculate_posterior(theta)
+    vc.inputs["evidence"], vc.inputs["expected"] = float(lml), float(want)
+    tol = 1e-6 * max(1.0, abs(want))
+    vc.ensures("evidence_is_finite_and_closed_form", bool(np.isfinite(lml)) and abs(lml - want) <= tol)
+    vc.ensures("evidence_value_variant_agrees", bool(np.isfinite(v2)) and abs(v2 - want) <= tol)
+    vc.ensures("gradient_is_finite", bool(np.all(np.isfinite(g))))
+    G = Kp @ A.T @ np.linalg.inv(J)
+    mean_c = mp + G @ r
+    sc = max(1.0, float(np.abs(mean_c).max()))
+    vc.ensures("posterior_mean_is_closed_form", bool(np.allclose(mean, mean_c, rtol=1e-5, atol=1e-5 * sc)))
+
+
 # ================================================================================================
 # proof layer: the real posterior / evidence code over abstract matrices (pyvc.matalg)
 # ================================================================================================
